@@ -93,23 +93,29 @@ Inductive gcall :=
   | GLewis (g : @gear FX)
   | GBend (g : @gear FX) (r : option role) (mate : option (@gear FX)) (ft : qty FX)
   | GContact (g : @gear FX) (r : option role) (mate : option (@gear FX)) (ft : qty FX).
-Definition gq_ok (r : res (qty FX)) (e : gexp) : bool :=
+(** bit for bit ([tol = false]) or within 1e-9 relative ([tol = true], used only to classify a disagreement as rounding-level) *)
+Definition g_close (x y : float) : bool :=
+  fbits_eq x y || PrimFloat.leb (PrimFloat.abs (PrimFloat.sub x y))
+                                (PrimFloat.add (PrimFloat.mul 0x1.12e0be826d695p-30 (PrimFloat.add (PrimFloat.abs x) (PrimFloat.abs y))) 0x1p-1000).
+Definition g_eq (tol : bool) (x y : float) : bool := if tol then g_close x y else fbits_eq x y.
+Definition gq_ok (tol : bool) (r : res (qty FX)) (e : gexp) : bool :=
   match r, e with
-  | Ok q, GQ v u => fbits_eq (qv q) v && String.eqb (qu q) u
+  | Ok q, GQ v u => g_eq tol (qv q) v && String.eqb (qu q) u
   | Err x, GErr y => exn_eqb x y
   | _, _ => false end.
-Definition gcase_ok (c : gcall * gexp) : bool :=
+Definition gcase_ok (tol : bool) (c : gcall * gexp) : bool :=
   match fst c with
-  | GForce g r l d => gq_ok (tangential_force g r l d) (snd c)
-  | GLewis g => match lewis_factor g, snd c with Ok y, GNum v => fbits_eq y v | Err x, GErr y => exn_eqb x y | _, _ => false end
-  | GBend g r m ft => gq_ok (bending_stress g r m ft) (snd c)
-  | GContact g r m ft => gq_ok (contact_stress g r m ft) (snd c)
+  | GForce g r l d => gq_ok tol (tangential_force g r l d) (snd c)
+  | GLewis g => match lewis_factor g, snd c with Ok y, GNum v => g_eq tol y v | Err x, GErr y => exn_eqb x y | _, _ => false end
+  | GBend g r m ft => gq_ok tol (bending_stress g r m ft) (snd c)
+  | GContact g r m ft => gq_ok tol (contact_stress g r m ft) (snd c)
   end.
 Fixpoint gearfailing_from (i : N) (l : list (gcall * gexp)) : list (N * (N * N)) :=
   match l with
   | [] => []
-  | c :: l' => if gcase_ok c then gearfailing_from (N.succ i) l'
-              else (i, (match fst c with GForce _ _ _ _ => 1 | GLewis _ => 2 | GBend _ _ _ _ => 3 | GContact _ _ _ _ => 4 end, 0)%N) :: gearfailing_from (N.succ i) l'
+  | c :: l' => if gcase_ok false c then gearfailing_from (N.succ i) l'
+              else let k := (match fst c with GForce _ _ _ _ => 1 | GLewis _ => 2 | GBend _ _ _ _ => 3 | GContact _ _ _ _ => 4 end)%N in
+                   (i, ((if gcase_ok true c then N.add 100 k else k), 0%N)) :: gearfailing_from (N.succ i) l'
   end.
 Definition gearfailing (l : list (gcall * gexp)) : list (N * (N * N)) := gearfailing_from 0 l.
 End GearCorr.
